@@ -38,7 +38,7 @@ func refServiceMatch(sip bool, user, host, whole string) bool {
 // VC03_Decision: the decision table of the property.
 func VC03_Decision() {
 	L := rt.Param("L")
-	routeKind := rt.Choice("route", 4)   // 0 none, 1 own only, 2 own+next, 3 next only
+	routeKind := rt.Choice("route", 6)   // 0 none, 1 own only, 2 own+next, 3 next only, 4 own+next+further, 5 next+further (joined on one line or not)
 	toKind := rt.Choice("tohost", 5)     // 0 exact static route, 1 wildcard, 2 only default, 3 none, 4 wildcard whose pattern sorts after the word "default"
 	ruriKind := rt.Choice("ruri", 10)    // 0 literal, 1 regex-only, 2 user@host name, 3 urn, 4 tel, 5 listener addr:port, 6 foreign, 7 another user at the named host, 8/9 a plain (metacharacter-free) name found inside a longer URI
 	keep := rt.Bool("keep-next-hop")
@@ -51,7 +51,7 @@ func VC03_Decision() {
 	// Route
 	head := "Via: SIP/2.0/UDP 10.0.2.2:5060;branch=z9hG4bKa\r\n"
 	own := "<sip:" + wListenAddr + ":" + itoa(wListenPort) + ";lr>"
-	if routeKind == 1 || routeKind == 2 {
+	if routeKind == 1 || routeKind == 2 || routeKind == 4 {
 		// the proxy's own entry by address, by configured alias, or by alias without port
 		own = []string{own, "<sip:proxy.example.com:" + itoa(wListenPort) + ";lr>", "<sip:proxy.example.com;lr>"}[rt.Choice("own-form", 3)]
 	}
@@ -87,6 +87,12 @@ func VC03_Decision() {
 		next += ">"
 		nextDest = tr + ":10.0.3." + octet + ":" + port
 	}
+	// a further entry behind the next hop, on another transport and port (it must not be chosen)
+	further := "<sip:10.0.3.200:5099;lr;transport=tcp>"
+	sep := ","
+	if routeKind >= 4 && rt.Bool("further-on-own-line") {
+		sep = "\r\nRoute: "
+	}
 	switch routeKind {
 	case 1:
 		head += "Route: " + own + "\r\n"
@@ -94,6 +100,10 @@ func VC03_Decision() {
 		head += "Route: " + own + "," + next + "\r\n"
 	case 3:
 		head += "Route: " + next + "\r\n"
+	case 4:
+		head += "Route: " + own + "," + next + sep + further + "\r\n"
+	case 5:
+		head += "Route: " + next + sep + further + "\r\n"
 	}
 	// To host
 	toHost := []string{"static.example.org", rt.Str("wild", "[a-z0-9-]", 1, L) + ".wild.example.org", rt.Str("unrouted", "[a-z]", 1, L) + ".nowhere.example.net", rt.Str("unrouted", "[a-z]", 1, L) + ".nowhere.example.net",
